@@ -324,3 +324,23 @@ def arg_const(fn, t, i):
 def short(fid):
     parts = fid.split("::")
     return "::".join(parts[-2:])
+
+
+def family(F, fn, depth=2):
+    """fn, its closures, and the functions of the same source file it calls (transitively, up to `depth`): the unit a
+    maintainer may split a function into (private helpers) without changing what it does"""
+    out, seen = [], set()
+    frontier = [(fn.id, 0)]
+    while frontier:
+        fid, d = frontier.pop()
+        if fid in seen or fid not in F.fns:
+            continue
+        g = F.fns[fid]
+        if g.file != fn.file:
+            continue
+        seen.add(fid)
+        out.append(g)
+        if d < depth or "{closure" in fid:
+            for c in F.callees(fid):
+                frontier.append((c, d + (0 if "{closure" in c else 1)))
+    return out
